@@ -760,5 +760,18 @@ pub fn all_schemas() -> Vec<Schema> {
 
 /// types the spec does not define: extension namespaces, near misses of a defined type
 /// (prefix, longer, other case) and the empty string
-pub const UNKNOWN_TYPES: [&str; 7] =
-    ["org.example.custom", "x.y", "m.room.messag", "m.room.message.extra", "M.ROOM.MESSAGE", "m.unknown.future_type", ""];
+pub const UNKNOWN_TYPES: [&str; 11] = [
+    "org.example.custom",
+    "x.y",
+    "m.room.messag",
+    "m.room.message.extra",
+    "M.ROOM.MESSAGE",
+    "m.unknown.future_type",
+    "",
+    // near misses of the only type with a wildcard suffix (`m.secret_storage.key.*`): the prefix
+    // without its dot, one character more, one character less
+    "m.secret_storage.key",
+    "m.secret_storage.keys",
+    "m.secret_storage.key_backup",
+    "m.secret_storage.ke",
+];
